@@ -25,6 +25,9 @@ type c03Cfg struct {
 	M    int  `json:"m"`   // batch size
 	Rot  int  `json:"rot"` // shape rotation: message i has shape (i+rot)%4
 	NoOp bool `json:"nonoop"`
+	// Resend: history — after the (possibly failed) Send the very same Msg objects are sent once more over a new,
+	// fault-free connection: what the server commits then must be complete as well
+	Resend bool `json:"resend,omitempty"`
 }
 
 type c03Case struct {
@@ -32,7 +35,9 @@ type c03Case struct {
 	Prefix []int  `json:"choices"`
 }
 
-var c03ShapeNames = []string{"single", "alternative", "body+attachment", "body+embed"}
+var c03ShapeNames = []string{"single", "alternative", "body+attachment", "body+embed", "body+attachment(AttachReader)", "body+embed(EmbedReadSeeker)"}
+
+const c03NShapes = 6
 
 // faultCtl decides, through the chooser, how each content producer behaves; Off disables all faults (used
 // for the reference rendering after the run).
@@ -121,23 +126,30 @@ func c03Build(i, shape int, f *faultCtl) *mail.Msg {
 		html := []byte(fmt.Sprintf("<html><body><p>HTML body of message %d</p>\r\n<p>second paragraph</p></body></html>\r\n", i))
 		m.AddAlternativeWriter(mail.TypeTextHTML, f.producer(nm+".alt", html))
 	case 2:
-		data := bytes.Repeat([]byte{byte(i), 0xff, 0x00, '.', '\r', '\n', 'A'}, 40)
+		data := bytes.Repeat([]byte{byte(i), 0xff, 0x00, '.', '\r', '\n', 'A'}, 1200) // larger than the transport's write buffer
 		m.SetAttachments([]*mail.File{{Name: fmt.Sprintf("att%d.bin", i), Header: textproto.MIMEHeader{}, Writer: f.producer(nm+".att", data)}})
 	case 3:
 		data := bytes.Repeat([]byte{0x89, 'P', 'N', 'G', byte(i), '\n'}, 30)
 		m.SetEmbeds([]*mail.File{{Name: fmt.Sprintf("emb%d.png", i), Header: textproto.MIMEHeader{}, Writer: f.producer(nm+".emb", data)}})
+	case 4:
+		// library-made producers: the content is handed over as a reader (no producer fault here; transport faults apply)
+		data := bytes.Repeat([]byte{byte(i), 0xfe, 0x01, '.', '\r', '\n', 'R'}, 1300) // larger than the transport's write buffer: a failure can hit while the part is still being produced
+		_ = m.AttachReader(fmt.Sprintf("rdr%d.bin", i), bytes.NewReader(data))
+	case 5:
+		data := bytes.Repeat([]byte{0x89, 'P', 'N', 'G', byte(i), '\n', 'S'}, 1300)
+		m.EmbedReadSeeker(fmt.Sprintf("rs%d.png", i), bytes.NewReader(data))
 	}
 	return m
 }
 
-var c03XportNames = []string{"never", "at first content byte", "inside headers", "inside a part body", "just before the end of content", "inside the end-of-data marker"}
+var c03XportNames = []string{"never", "at first content byte", "inside headers", "inside a part body", "just before the end of content", "inside the end-of-data marker", "inside the content of the last part"}
 
 func c03Exec(r *vf.Run, cfg c03Cfg, c *vf.Chooser) (keys, whats []string) {
 	add := func(k, w string) { keys = append(keys, k); whats = append(whats, w) }
 	f := &faultCtl{c: c, picked: map[string]int{}, fired: map[string]bool{}}
 	msgs := make([]*mail.Msg, cfg.M)
 	for i := range msgs {
-		msgs[i] = c03Build(i, (i+cfg.Rot)%4, f)
+		msgs[i] = c03Build(i, (i+cfg.Rot)%c03NShapes, f)
 	}
 	// reference lengths from a pilot rendering of structurally identical messages (boundaries differ, lengths do not)
 	refLen := make([]int, cfg.M)
@@ -146,7 +158,7 @@ func c03Exec(r *vf.Run, cfg c03Cfg, c *vf.Chooser) (keys, whats []string) {
 		pf := &faultCtl{off: true}
 		for i := range msgs {
 			var b bytes.Buffer
-			_, _ = c03Build(i, (i+cfg.Rot)%4, pf).WriteTo(&b)
+			_, _ = c03Build(i, (i+cfg.Rot)%c03NShapes, pf).WriteTo(&b)
 			refLen[i] = b.Len()
 			hdrLen[i] = bytes.Index(b.Bytes(), []byte("\r\n\r\n"))
 		}
@@ -184,7 +196,7 @@ func c03Exec(r *vf.Run, cfg c03Cfg, c *vf.Chooser) (keys, whats []string) {
 				}
 			}
 			if mi >= 0 {
-				if k := c.Choose(fmt.Sprintf("transport#%d", ev.Txn), 6); k > 0 {
+				if k := c.Choose(fmt.Sprintf("transport#%d", ev.Txn), 7); k > 0 {
 					off := 0
 					switch k {
 					case 2:
@@ -195,6 +207,8 @@ func c03Exec(r *vf.Run, cfg c03Cfg, c *vf.Chooser) (keys, whats []string) {
 						off = refLen[mi] - 9
 					case 5:
 						off = refLen[mi] + 1
+					case 6:
+						off = hdrLen[mi] + (refLen[mi]-hdrLen[mi])*2/3
 					}
 					xport[ev.Txn] = off
 					xportCls[ev.Txn] = k
@@ -218,7 +232,12 @@ func c03Exec(r *vf.Run, cfg c03Cfg, c *vf.Chooser) (keys, whats []string) {
 		}
 		return -1
 	}
+	sess2 := &refsmtp.Session{Host: hx.Host, Caps: []string{"8BITMIME", "ENHANCEDSTATUSCODES"}}
+	conn2 := refsmtp.NewConn(sess2)
 	rig := &hx.Rig{Mk: func(n int) *refsmtp.Conn {
+		if n == 1 && cfg.Resend {
+			return conn2
+		}
 		if n > 0 {
 			return nil
 		}
@@ -244,6 +263,33 @@ func c03Exec(r *vf.Run, cfg c03Cfg, c *vf.Chooser) (keys, whats []string) {
 	if pan {
 		add("panic/"+vf.PanicSite(pw), pw)
 		return
+	}
+	// state of the messages after the judged Send (the re-send and the reference renderings come afterwards)
+	delivered := make([]bool, cfg.M)
+	hasErr := make([]bool, cfg.M)
+	for i, m := range msgs {
+		delivered[i], hasErr[i] = m.IsDelivered(), m.HasSendError()
+	}
+	var resendErr error
+	resendDelivered := make([]bool, cfg.M)
+	if cfg.Resend {
+		// before anything else renders these Msg objects again: the same objects over a new, fault-free connection
+		f.off = true
+		pan, pw = vf.Guard(func() {
+			if err := cl.DialWithContext(context.Background()); err != nil {
+				r.HarnessError("C03 second dial failed: %v", err)
+				return
+			}
+			resendErr = cl.Send(msgs...)
+			_ = cl.Close()
+		})
+		if pan {
+			add("panic/"+vf.PanicSite(pw), "re-send: "+pw)
+			return
+		}
+		for i, m := range msgs {
+			resendDelivered[i] = m.IsDelivered()
+		}
 	}
 	protoStates(r, sess.Transcript)
 	// a failing signer only "fires" if the message got as far as DATA (354)
@@ -344,19 +390,53 @@ func c03Exec(r *vf.Run, cfg c03Cfg, c *vf.Chooser) (keys, whats []string) {
 				renderFailed = true
 			}
 		}
-		if m.IsDelivered() != (acked[i] > 0) {
-			add(fmt.Sprintf("isdelivered-mismatch/delivered=%v/acked=%v/eod-code=%d/own-render-failed=%v", m.IsDelivered(), acked[i] > 0, ackCode[i], renderFailed),
-				fmt.Sprintf("message %d: IsDelivered()=%v but its end-of-data was acknowledged 2yz %d time(s) (code %d)", i, m.IsDelivered(), acked[i], ackCode[i]))
+		_ = m
+		if delivered[i] != (acked[i] > 0) {
+			add(fmt.Sprintf("isdelivered-mismatch/delivered=%v/acked=%v/eod-code=%d/own-render-failed=%v", delivered[i], acked[i] > 0, ackCode[i], renderFailed),
+				fmt.Sprintf("message %d: IsDelivered()=%v but its end-of-data was acknowledged 2yz %d time(s) (code %d)", i, delivered[i], acked[i], ackCode[i]))
 		}
 		if renderFailed {
-			if !m.HasSendError() {
+			if !hasErr[i] {
 				add("render-failure-not-reported/cause="+cause(), fmt.Sprintf("rendering of message %d failed but it carries no SendError", i))
 			}
-			if m.IsDelivered() {
+			if delivered[i] {
 				add("render-failure-but-delivered/cause="+cause(), fmt.Sprintf("rendering of message %d failed but IsDelivered()==true", i))
 			}
 			if committed[i] > 0 {
 				add("render-failure-but-committed/cause="+cause(), fmt.Sprintf("rendering of message %d failed but the server committed it", i))
+			}
+		}
+	}
+	if cfg.Resend {
+		signBad := func(i int) bool { return f.picked[fmt.Sprintf("m%d.sign", i)] == 1 }
+		got := make([]int, cfg.M)
+		for _, cm := range sess2.Commits {
+			hit := -1
+			for i, ref := range refs {
+				if bytes.Equal(cm.Data, ref) || bytes.Equal(cm.Data, append(append([]byte{}, ref...), '\r', '\n')) {
+					hit = i
+				}
+			}
+			if hit < 0 {
+				add("incomplete-commit/on-resend/first-attempt="+cause(),
+					fmt.Sprintf("re-sending the same Msg objects over a fault-free connection, the server committed %d bytes that are not the complete rendering of any of them: %q…", len(cm.Data), clipb(cm.Data, 60)))
+				continue
+			}
+			got[hit]++
+		}
+		anyBad := false
+		for i := range msgs {
+			anyBad = anyBad || signBad(i)
+		}
+		for i := range msgs {
+			if anyBad {
+				break // a message that still cannot be signed fails again and takes the connection with it: only completeness is judged
+			}
+			if got[i] != 1 {
+				add(fmt.Sprintf("resend-committed-%d-times/first-attempt=%s", got[i], cause()), fmt.Sprintf("message %d was committed %d times by the fault-free re-send (error: %v)", i, got[i], resendErr))
+			}
+			if !resendDelivered[i] {
+				add("resend-not-delivered/first-attempt="+cause(), fmt.Sprintf("message %d: IsDelivered()==false after a fault-free re-send (error: %v)", i, resendErr))
 			}
 		}
 	}
@@ -390,7 +470,7 @@ func init() {
 	vf.Register(&vf.Check{
 		ID: "C03", Title: "only complete messages are committed; IsDelivered tells the truth",
 		Run: func(r *vf.Run) {
-			r.SetRule("batches of 1..3 messages over shapes {single, alternative, body+attachment, body+embed}; choice points: every content producer {ok, fail before first byte, fail after half — with a generic error, with io.EOF, with a wrapped io.EOF}, S/MIME signing of single-part messages {off, fails at render time before the first byte}, transport failure in each DATA phase at {never, first content byte, inside headers, inside a part body, just before the end, inside the end-of-data marker}, server reply at NOOP/MAIL/RCPT/DATA/RSET {ok,4yz,5yz,drop,multi-line ok} and at end-of-data {250,4yz,5yz,drop,251,multi-line 250}; all vectors with <= k deviations; oracle: server commit log vs. reference rendering of the same Msg objects; distinct by (configuration, choice vector)")
+			r.SetRule("batches of 1..3 messages over shapes {single, alternative, body+attachment, body+embed, body+attachment from a reader, body+embed from a read-seeker}; (history) the same Msg objects sent again over a fault-free connection; choice points: every content producer {ok, fail before first byte, fail after half — with a generic error, with io.EOF, with a wrapped io.EOF}, S/MIME signing of single-part messages {off, fails at render time before the first byte}, transport failure in each DATA phase at {never, first content byte, inside headers, inside a part body, just before the end, inside the end-of-data marker, inside the content of the last part}, server reply at NOOP/MAIL/RCPT/DATA/RSET {ok,4yz,5yz,drop,multi-line ok} and at end-of-data {250,4yz,5yz,drop,251,multi-line 250}; all vectors with <= k deviations; oracle: server commit log vs. reference rendering of the same Msg objects; distinct by (configuration, choice vector)")
 			r.Assume("the reference rendering is WriteTo on the same Msg after Send with faults disabled (default file encodings; repeatability itself is C11)",
 				"the transport's final CRLF after content that does not end in CRLF is not part of the message")
 			type job struct {
@@ -407,7 +487,7 @@ func init() {
 				deep = 4 // single-message batches one level deeper
 			}
 			for m := 1; m <= maxM; m++ {
-				for rot := 0; rot < 4; rot++ {
+				for rot := 0; rot < c03NShapes; rot++ {
 					for _, nn := range []bool{false, true} {
 						b := bound
 						if m == 3 && nn {
@@ -420,9 +500,17 @@ func init() {
 					}
 				}
 			}
+			// histories: the same Msg objects are sent again over a fault-free connection
+			for rot := 0; rot < c03NShapes; rot++ {
+				b := 1
+				if r.Thorough {
+					b = 2
+				}
+				jobs = append(jobs, job{c03Cfg{M: 1, Rot: rot, Resend: true}, b + 1}, job{c03Cfg{M: 2, Rot: rot, Resend: true}, b})
+			}
 			if !r.Thorough {
 				// quick still covers batches of 3 at bound 1
-				for rot := 0; rot < 4; rot++ {
+				for rot := 0; rot < c03NShapes; rot++ {
 					jobs = append(jobs, job{c03Cfg{M: 3, Rot: rot}, 1})
 				}
 			}
